@@ -267,7 +267,7 @@ public:
       });
       
       if (repairableUnownedNode != unownedDirectoryInputNodesAndConsumingCommands.end()) {
-        (*repairableUnownedNode).first->mustScanAfterPaths.push_back(outputNodeAndCommand.first->getName());
+        (*repairableUnownedNode).first->mustScanAfterPaths.push_back(outputNodeAndCommand.first->getName().str());
       }
     }
   }
